@@ -51,7 +51,13 @@ CLAIMS = {
                 "checksum step and admit only 0-9A-Z), C05_*_is_valid (is_valid never raises and is true iff validated "
                 "construction succeeds), C05_iban_named / C05_bic_named (a raised class names a defect present per the independent "
                 "Spec/Defects.v). Obligations on the generated step list (steps_guarded), regex classes (exact ASCII classes) "
-                "re-discharged every run. Found and fixed: Unicode \\d (d369466). National validation's totality is C06/C17.",
+                "re-discharged every run. With national validation requested: C05_national_total (BBAN.validate_national_checksum "
+                "raises no foreign exception on any structurally conforming BBAN of any country: the classes at the positions "
+                "each national algorithm reads are what its arithmetic needs - Proofs/ComputeTotal.v, NationalTotal.v - and no "
+                "German method does on a ten-digit account number - C07_total) and C05_iban_total_national (hence no text makes "
+                "IBAN(text, validate_bban=True) raise outside the family; obligation: the national step comes after the "
+                "character and format steps). Not proved for validate_bban=True: the is_valid / named-defect clauses (the "
+                "InvalidBBANChecksum case is C06). Found and fixed: Unicode \\d (d369466).",
         "note": COMMON_NOTE,
         "technique": "Coq proof (step-guard invariant over the generated step list, exact regex classes) + data obligations + spec-oracle and correspondence streams",
         "design_ref": "DESIGN.md §4 C05",
